@@ -44,11 +44,12 @@ type peerEnd struct {
 }
 
 type connRec struct {
-	idx     int
-	peer    int
-	dialled bool
-	our     network.Conn // the router's Conn object, learnt at a schedule point
-	pe      *peerEnd
+	idx        int
+	peer       int
+	dialled    bool
+	our        network.Conn // the router's Conn object, learnt at a schedule point
+	pe         *peerEnd
+	peerClosed bool
 }
 
 type peerHost struct {
@@ -116,6 +117,7 @@ func newKeyedIdentity(addr network.Address) *network.ServerIdentity {
 }
 
 func newREnv(tcp bool, npeers int) (*renv, error) {
+	opDeadline = longDeadline
 	e := &renv{tcp: tcp, sched: lib.NewSched(),
 		connectedCh: make(chan network.Conn, 64), identityCh: make(chan network.Conn, 64),
 		closedSetCh: make(chan struct{}, 64),
@@ -274,13 +276,38 @@ func newPeerEnd(c network.Conn, dialled bool) *peerEnd {
 	return pe
 }
 
-const opDeadline = 8 * time.Second
+// opDeadline bounds every wait for an operation of the code under test, so that a hang is
+// an observation (RPending / not returned), never a stuck harness. After the first
+// operation of a case has missed it, the remaining waits of that case are short.
+var opDeadline = 5 * time.Second
+
+const longDeadline = 5 * time.Second
+const shortDeadline = 300 * time.Millisecond
+
+// pollUntil polls cond until it holds or opDeadline passes (then the later waits are short).
+func pollUntil(cond func() bool) bool {
+	d := opDeadline
+	deadline := time.Now().Add(d)
+	for time.Now().Before(deadline) {
+		if cond() {
+			return true
+		}
+		time.Sleep(200 * time.Microsecond)
+	}
+	if d >= longDeadline {
+		opDeadline = shortDeadline
+	}
+	return false
+}
 
 func waitCh(ch <-chan struct{}, d time.Duration) bool {
 	select {
 	case <-ch:
 		return true
 	case <-time.After(d):
+		if d >= longDeadline {
+			opDeadline = shortDeadline
+		}
 		return false
 	}
 }
@@ -325,9 +352,18 @@ func (e *renv) trackDial(res *opResult, peer int, gate *lib.Gate) bool {
 		case c := <-e.connectedCh:
 			note(c)
 			if gate != nil {
-				// the first arrival is the one the gate holds
-				if gate.WaitHit(opDeadline) {
-					return true
+				// the first arrival is the one the gate holds (the point may also never be
+				// reached: registration refused before router.registered)
+				deadline := time.Now().Add(opDeadline)
+				for time.Now().Before(deadline) {
+					if gate.WaitHit(2 * time.Millisecond) {
+						return true
+					}
+					select {
+					case <-res.done:
+						deadline = time.Now()
+					default:
+					}
 				}
 			}
 		case <-res.done:
@@ -378,7 +414,7 @@ func (e *renv) dialIn(p int) *connRec {
 
 func (e *renv) runMacro(m mac, seqNo int) error {
 	switch m.Op {
-	case "send", "senddead", "sendhold":
+	case "send", "senddead", "sendhold", "sendholdreg":
 		var si *network.ServerIdentity
 		peer := m.A
 		if m.Op == "senddead" {
@@ -391,6 +427,9 @@ func (e *renv) runMacro(m mac, seqNo int) error {
 		var gate *lib.Gate
 		if m.Op == "sendhold" {
 			gate = e.sched.Block("router.connected", 1, e.sameRouter)
+			e.heldSend[idx] = gate
+		} else if m.Op == "sendholdreg" {
+			gate = e.sched.Block("router.registered", 1, e.sameRouter)
 			e.heldSend[idx] = gate
 		}
 		res := e.startSend(si, 1000+seqNo)
@@ -531,6 +570,13 @@ func (e *renv) runMacro(m mac, seqNo int) error {
 		e.mu.Unlock()
 		close(hold)
 		waitCh(end, opDeadline)
+		if rec := e.conns[m.A]; rec.peerClosed && rec.our != nil {
+			// the handler now sees the closed connection, ends and unregisters it
+			pollUntil(func() bool {
+				closed, _ := network.VerifConnClosed(rec.our)
+				return closed && (!e.r.VerifRegistered(rec.our) || e.r.Closed())
+			})
+		}
 		e.settleStops()
 	case "stop", "stophold":
 		idx := len(e.stops)
@@ -590,22 +636,29 @@ func (e *renv) runMacro(m mac, seqNo int) error {
 			return nil
 		}
 		rec.pe.conn.Close()
+		rec.peerClosed = true
+		if _, busy := e.heldMsg[m.A]; busy {
+			// the handler is blocked inside Dispatch: it will notice after the release
+			if !e.tcp && rec.our != nil {
+				deadline := time.Now().Add(opDeadline)
+				for time.Now().Before(deadline) {
+					if closed, _ := network.VerifConnClosed(rec.our); closed {
+						break
+					}
+					time.Sleep(200 * time.Microsecond)
+				}
+			}
+			return nil
+		}
 		// the router's handler sees EOF, closes its end and unregisters
 		if rec.our != nil {
-			deadline := time.Now().Add(opDeadline)
-			for time.Now().Before(deadline) {
+			pollUntil(func() bool {
 				closed, _ := network.VerifConnClosed(rec.our)
-				if closed && !e.r.VerifRegistered(rec.our) {
-					break
+				if closed && (!e.r.VerifRegistered(rec.our) || e.r.Closed()) {
+					return true
 				}
-				if closed && e.r.Closed() {
-					break
-				}
-				if !e.r.VerifRegistered(rec.our) && e.isHeldSetup(rec) {
-					break
-				}
-				time.Sleep(200 * time.Microsecond)
-			}
+				return !e.r.VerifRegistered(rec.our) && e.isHeldSetup(rec)
+			})
 		}
 	default:
 		return fmt.Errorf("unknown macro %q", m.Op)
@@ -838,6 +891,8 @@ func coqMacro(m mac) string {
 		return fmt.Sprintf("MSendDead %d", m.A)
 	case "sendhold":
 		return fmt.Sprintf("MSendHold %d", m.A)
+	case "sendholdreg":
+		return fmt.Sprintf("MSendHoldReg %d", m.A)
 	case "sendrelease":
 		return fmt.Sprintf("MSendRelease %d", m.A)
 	case "incoming":
@@ -873,7 +928,7 @@ func runScript(in input) lib.Case {
 	npeers := 1
 	for _, m := range in.Script {
 		switch m.Op {
-		case "send", "sendhold", "incoming", "incominghold", "incomingsilent":
+		case "send", "sendhold", "sendholdreg", "incoming", "incominghold", "incomingsilent":
 			if m.A+1 > npeers {
 				npeers = m.A + 1
 			}
@@ -888,7 +943,7 @@ func runScript(in input) lib.Case {
 	var scenarioErr string
 	for i, m := range in.Script {
 		switch m.Op {
-		case "send", "sendhold":
+		case "send", "sendhold", "sendholdreg":
 			e.sendPeer = append(e.sendPeer, m.A)
 		case "senddead":
 			e.sendPeer = append(e.sendPeer, -1)
